@@ -54,7 +54,8 @@ def _get_all_connection_axes(connections, facedim):
     all_axes = []
     for c in connections[facedim].values():
         all_axes.extend(list(c.keys()))
-    return list(set(all_axes))
+    # unique, in order of first appearance (a set would iterate in hash order)
+    return list(dict.fromkeys(all_axes))
 
 
 def _strip_all_coords(obj: xr.DataArray):
@@ -99,7 +100,9 @@ def _pad_face_connections(
     # Detect all the axes we have to deal with during padding
     # all the axes defined in the connections + the axes of the padding width should give all axes we need to iterate over
     pad_axes = list(
-        set(_get_all_connection_axes(connections, facedim) + list(padding_width.keys()))
+        dict.fromkeys(
+            _get_all_connection_axes(connections, facedim) + list(padding_width.keys())
+        )
     )
 
     padding_width = {axname: padding_width.get(axname, (0, 0)) for axname in pad_axes}
